@@ -5,7 +5,7 @@ LEAN_MODULES = ["PomerolModel.Properties.C13"]
 GENERATED = ["coreflags", "chi4"]
 THEOREMS = ["Pomerol.Properties.C13." + t for t in (
     "exchange_first_pair", "alias_value", "lookup_value_any_history", "listed_elements_evaluable_after_bulk",
-    "stale_nontrivial_was_wrong", "alias_table_entries")]
+    "stale_nontrivial_was_wrong", "alias_table_entries", "exchange_second_pair", "exchange_second_pair_matsubara")]
 RULE = ("a case = random model (2-4 modes) and a random history of fill / prepareAll / computeAll(split|nosplit) / lookup / "
         "element prepare / element compute / list / evaluate-all calls over random quadruples (incl. repeated and exchanged "
         "ones); after every call the complete maps (keys, owner element, alias permutation, status) are compared with the model, "
@@ -21,7 +21,7 @@ LEVEL_TEXT = ("Proof: over the container state machine (alias permutation entrie
               "alias alike); after prepareAll + computeAll every listed element is evaluable; chi_jikl(w2,w1;w3) = -chi_ijkl(w1,w2;w3) "
               "is proved for the definition (signed sum over orderings). Tie: exact replay of random histories; every value "
               "against a directly constructed object.")
-LEVEL_NOTE = "Trusted: Lean kernel, translator flags; the 3<->4 symmetry of chi by numerics only (named gap)."
+LEVEL_NOTE = "Trusted: Lean kernel, translator flags; both exchange symmetries of chi are theorems (1<->2 by relabelling the orderings, 3<->4 by the cyclic identity of the multi-term in all resonance classes), so the ChiFamily hypothesis of the container theorems is inhabited by the definition of chi (chiFamilyOfDef)."
 TECHNIQUE = "Lean 4 invariant proof over a request-history state machine + exact differential replay of histories"
 DESIGN_REF = "DESIGN.md section 6, C13"
 
